@@ -198,3 +198,150 @@ def shrink_schedule(binary, rec, wd, still_fails):
         return {'scn': rec['scn'], 'sched': ','.join(names[:hi]), 'verdict': rec.get('verdict', ''), 'trace': rec.get('trace', [])}
     except Exception:
         return rec
+
+# ------------------------------------------------------------------------------------------------------------------
+# the check shared by C05 / C06 / C09
+
+MIRRORED = ['locker.closeBy', 'locker.isCloseBy', 'locker.status', 'locker.force', 'locker.lock', 'locker.unlock', 'locker.stop',
+            'connection.onHup', 'connection.onClose', 'connection.closeCallback', 'connection.onConnect', 'connection.onDisconnect',
+            'connection.onRequest', 'connection.onProcess', 'connection.inputAck', 'connection.triggerRead', 'connection.triggerWrite',
+            'connection.Close', 'connection.Detach', 'connection.IsActive', 'connection.initFinalizer', 'connection.onPrepare',
+            'connection.register', 'connection.SetOnRequest', 'connection.AddCloseCallback', 'connection.closeBuffer',
+            'connection.getState', 'connection.setState', 'connection.changeState', 'connection.init', 'connection.Release',
+            'FDOperator.Control', 'FDOperator.Free', 'FDOperator.do', 'FDOperator.done', 'FDOperator.inuse', 'FDOperator.unused',
+            'FDOperator.reset', 'operatorCache.freeable', 'netFD.Close', 'UnsafeLinkBuffer.Len', 'UnsafeLinkBuffer.recalLen',
+            'server.onAccept', 'defaultPoll.handler', 'defaultPoll.appendHup', 'defaultPoll.detach', 'defaultPoll.onhups', 'readall']
+
+def fingerprint_changes():
+    """mirrored functions whose source differs from lib/expected_fp.json (escalates the search; never an alarm by itself)"""
+    exp_path = os.path.join(common.VERIF, 'lib/expected_fp_life.json')
+    if not os.path.exists(exp_path):
+        return []
+    exp = json.load(open(exp_path))
+    cur = common.facts()['funcs']
+    return [n for n in MIRRORED if n in exp and (n not in cur or cur[n]['hash'] != exp[n])]
+
+def _mine(rec, prop):
+    """does this spec failure concern property `prop`?"""
+    v = rec['verdict']
+    return ('spec: ' in v) and any(part.strip().startswith(prop + ' ') for part in v.split('spec: ', 1)[1].split(';'))
+
+def _replay_lines(rec, why):
+    L = ['# ' + why, 'scn ' + rec['scn'], 'sched ' + rec['sched'], '# --- trace of the failing run (as executed by go/cmd/sched) ---']
+    L += ['# ' + l for l in rec.get('trace', [])[:400]]
+    return L
+
+def check(rep, prop, modules, assumptions):
+    wd = os.path.join(common.WORK, prop)
+    import shutil
+    shutil.rmtree(wd, ignore_errors=True); os.makedirs(wd)
+    ok, detail = common.proof_stage(rep, modules, ['npdriver'])
+    proof_broken = None if ok else detail
+    binary, out = build()
+    if binary is None:
+        rep.violation('instrumented harness does not build against the repo (does the tree compile? did a protocol file change shape?):\n' + out[-2500:],
+                      ['# go build / tools/instrument failed', '# ' + out[-1500:].replace('\n', '\n# ')], no_input=True)
+        return
+    changed = fingerprint_changes() if os.path.exists(os.path.join(common.WORK, 'facts.json')) else []
+    escalate = bool(changed) or proof_broken is not None
+    if changed:
+        rep.notes.append('mirrored functions whose source changed since the model was validated (search escalated): ' + ', '.join(changed))
+    # corpus first
+    results = []
+    ncorpus = 0
+    for f in sorted(glob.glob(os.path.join(common.VERIF, 'corpus', 'C0[569]', '*.sched'))):
+        r = replay_file(binary, f, os.path.join(wd, 'corpus'), os.path.basename(f).replace('.sched', ''))
+        r['corpus'] = os.path.basename(f)
+        ncorpus += r['runs']
+        results.append(r)
+    jobs, cfg = plan(rep.tier, rep.seed, escalate)
+    results += run_jobs(binary, wd, jobs)
+    spec_mine, spec_other, conf = [], [], []
+    for r in results:
+        if r['harness_rc'] != 0:
+            rep.violation('harness run failed (%s rc=%s): %s' % (r['name'], r['harness_rc'], r['harness_out'][-800:]), ['# harness failure'], no_input=True, tag='harness-')
+            return
+        for f in r['spec_fail']:
+            (spec_mine if _mine(f, prop) else spec_other).append(f)
+        for f in r['conf_fail']:
+            conf.append(f)
+    if (conf or proof_broken) and not spec_mine and not escalate:
+        # widened search before reporting "no failing input found"
+        jobs2, _ = plan(rep.tier, rep.seed + 1000, True)
+        more = run_jobs(binary, os.path.join(wd, 'wide'), jobs2)
+        results += more
+        for r in more:
+            for f in r['spec_fail']:
+                (spec_mine if _mine(f, prop) else spec_other).append(f)
+            conf += r['conf_fail']
+    runs = sum(r['runs'] for r in results)
+    rep.cov['evaluations'] = runs
+    rep.cov['distinct_nontrivial'] = sum(r['distinct'] for r in results)
+    rep.cov['rule'] = ('schedules executed on the REAL code under the controlled scheduler (instrumented copies of the protocol files regenerated from the repo by '
+                       'tools/instrument; exactly one actor runs between schedule points); every trace is replayed step by step on the Lean model Netpoll.Conn.Life '
+                       '(trace conformance) and judged by the Lean spec oracle Netpoll.Conn.LifeSpec; distinct_nontrivial = distinct traces (hash of all step lines) per shard, summed')
+    rep.cov['traces_validated_against_impl'] = runs
+    rep.cov['trace_lines'] = sum(r['lines'] for r in results)
+    rep.cov['corpus_schedules'] = ncorpus
+    rep.cov['plan'] = cfg
+    enum = [e for r in results for e in r['enum']]
+    rep.cov['enumerated_scenarios'] = len(enum)
+    rep.cov['enumerations_exhausted'] = sum(1 for e in enum if 'exhausted=true' in e)
+    rep.cov['max_preemptions_reached'] = max([int(re.search(r'maxpreempt=(\d+)', e).group(1)) for e in enum] or [0])
+    st = {}
+    for r in results:
+        for k, v in r['statuses'].items(): st[k] = st.get(k, 0) + v
+    rep.cov['run_status'] = st
+    hits = {}
+    for r in results:
+        for k, v in r['sites'].items(): hits[k] = hits.get(k, 0) + v
+    try:
+        sites = common.instr_sites()['sites']
+        inst = [x['id'] for x in sites if x['instrumented']]
+        rep.cov['sites_instrumented'] = len(inst)
+        rep.cov['sites_hit_as_schedule_points'] = sorted(k for k in hits if not k.startswith('~'))
+        rep.cov['sites_passed_unscheduled'] = sorted(k[1:] for k in hits if k.startswith('~') and k[1:] not in hits)
+        rep.cov['sites_never_hit'] = sorted(x for x in inst if x not in hits and '~' + x not in hits)
+        rep.cov['constructs_not_instrumented'] = [x['id'] + ' ' + x['note'] for x in sites if not x['instrumented'] and x['kind'] in ('select', 'recv', 'send', 'atomic', 'gosched', 'callback', 'sysclose') and 'select case' not in x.get('note', '')]
+    except Exception as e:
+        rep.notes.append('site coverage unavailable: %r' % (e,))
+    rep.cov['samples'] = ['scn %s | sched %s' % (j[1][j[1].index('-scn') + 1].split(';')[0], '(enumerated)') for j in jobs[:2]]
+    rep.cov['spec_failures_of_other_properties_in_these_runs'] = len(spec_other)
+    rep.assumptions += assumptions
+    # verdict
+    if spec_mine:
+        f = min(spec_mine, key=lambda x: len(x['sched']))
+        small = shrink_schedule(binary, f, os.path.join(wd, 'shrink'), lambda r: any(_mine(x, prop) for x in r['spec_fail']))
+        rep.violation('implementation violates the %s spec under a concrete schedule (%d failing schedules in %d runs; shortest, shrunk, is the replay): %s'
+                      % (prop, len(spec_mine), runs, f['verdict'].split('spec: ', 1)[1][:600]), _replay_lines(small, 'replay with ./check %s --replay <this file>' % prop))
+    elif conf:
+        f = min(conf, key=lambda x: len(x['sched']))
+        rep.violation('trace conformance Netpoll.Conn.Life <-> code no longer checks (%d of %d runs) and no %s-violating schedule was found in the widened search: %s'
+                      % (len(conf), runs, prop, f['verdict'].split('conf: ', 1)[1][:600]), _replay_lines(f, 'correspondence break (model step refused / result differs)'), no_input=True)
+    elif proof_broken:
+        rep.violation('proof obligation broken and no failing schedule found in %d runs: %s' % (runs, proof_broken),
+                      ['# ' + l for l in proof_broken.split('\n')], no_input=True)
+    for k in common.known_findings(prop):
+        if k.get('status') == 'finding':
+            print('KNOWN-FINDING: property=%s %s' % (prop, k['what']))
+
+def replay(rep, prop, path):
+    binary, out = build()
+    if binary is None:
+        rep.violation('harness does not build:\n' + out[-2000:], ['# build failed'], no_input=True)
+        return rep.finish('proof')
+    common.lake_build(['npdriver'])
+    r = replay_file(binary, path, os.path.join(common.WORK, 'replay-' + prop))
+    rep.cov['evaluations'] = r['runs']
+    for f in r['spec_fail'] + r['conf_fail']:
+        print('REPLAY: ' + f['verdict'][:1500])
+    mine = [f for f in r['spec_fail'] if _mine(f, prop)]
+    if mine:
+        rep.violation('replay reproduces: ' + mine[0]['verdict'].split('spec: ', 1)[1][:600], _replay_lines(mine[0], 'replayed'))
+    elif r['conf_fail']:
+        rep.violation('replay reproduces the correspondence break: ' + r['conf_fail'][0]['verdict'][:600], _replay_lines(r['conf_fail'][0], 'replayed'), no_input=True)
+    elif r['runs'] == 0:
+        print('REPLAY: no schedule in file (need `scn <spec>` and `sched <choices>` lines)')
+    else:
+        print('REPLAY: %d schedule(s) ran, spec and conformance ok' % r['runs'])
+    return rep.finish('proof')
